@@ -441,7 +441,7 @@ func PrintSuggestionsForLsp(p parser.Parser) {
 			return
 		}
 
-		if targetT.IsIdentifierType() && unicode.IsUpper(rune(targetT.ToString()[0])) {
+		if targetT.IsIdentifierType() && len(targetT.ToString()) > 0 && unicode.IsUpper(rune(targetT.ToString()[0])) {
 			printAllClasses()
 		}
 	}
